@@ -346,16 +346,18 @@ func c06Levels(tier string) []core.Level {
 				}
 			}
 		}},
-		{Name: "inline 'if': every subset of a sequence of length <= 5 as the satisfying set (key and value printed)", Gen: func(emit func(core.Case)) {
+		{Name: "inline 'if': every subset of a sequence of length <= 5 as the satisfying set (key and value printed), without and with an else branch", Gen: func(emit func(core.Case)) {
 			for n := 0; n <= 5; n++ {
 				for m := 0; m < 1<<uint(n); m++ {
 					emit(core.Case{Fam: "forif", N: []int{n, m, 0}})
 					emit(core.Case{Fam: "forif", N: []int{n, m, 1}})
+					emit(core.Case{Fam: "forif", N: []int{n, m, 0, 1}})
+					emit(core.Case{Fam: "forif", N: []int{n, m, 1, 1}})
 				}
 			}
 		}},
-		{Name: "non-iterable values (number, string, bool, struct, pointer to struct) are an error, at top level and inside 7 enclosing constructs (list loop, map loop, branch, else branch of an empty loop, two loops, branch in a loop, loop with inline condition)", Gen: func(emit func(core.Case)) {
-			for i := 0; i < 6; i++ {
+		{Name: "non-iterable values (number, string, bool, struct, pointer to struct, and the zero values of these kinds) are an error, at top level and inside 7 enclosing constructs (list loop, map loop, branch, else branch of an empty loop, two loops, branch in a loop, loop with inline condition)", Gen: func(emit func(core.Case)) {
+			for i := 0; i < 13; i++ {
 				for e := 0; e < 2; e++ {
 					emit(core.Case{Fam: "noniter", N: []int{i, e}})
 					for w := 1; w < 8; w++ {
@@ -557,6 +559,13 @@ func c06Run(c core.Case) core.Result {
 		if sat == nil {
 			sat = []stick.Value{}
 		}
+		if len(c.N) > 3 && c.N[3] == 1 {
+			// with an else branch: it is rendered exactly when the sequence is empty, not when every element is rejected
+			if n == 0 {
+				want = "E"
+			}
+			return c06Compare("("+head+"{% else %}E{% endfor %})", map[string]stick.Value{"sat": sat}, "("+want+")", true)
+		}
 		return c06Compare("("+head+"{% endfor %})", map[string]stick.Value{"sat": sat}, "("+want+")", n > 0)
 	case "indirect":
 		// loop metadata read by code that is not written in the loop body: a registered filter / test / function
@@ -630,7 +639,7 @@ func c06Run(c core.Case) core.Result {
 		}
 		return core.Okay(true, cons.out)
 	case "noniter":
-		vals := []stick.Value{5, "str", true, 2.5, stdObj{"o"}, &stdObj{"p"}}
+		vals := []stick.Value{5, "str", true, 2.5, stdObj{"o"}, &stdObj{"p"}, 0, "", false, 0.0, stdObj{}, int8(0), uint(0)}
 		src := "a{% for v in x %}b{% endfor %}c"
 		if c.N[1] == 1 {
 			src = "a{% for v in x %}b{% else %}e{% endfor %}c"
